@@ -1,0 +1,517 @@
+//go:build verif
+
+package storage
+
+// Verification hooks. Compiled only with `-tags verif`; they add observation
+// points and exported shims around unexported state and change no behaviour.
+
+import (
+	"bytes"
+	"fmt"
+	"io"
+	"os"
+	"sort"
+	"strings"
+)
+
+var verifHook func(event string, arg uint64)
+
+// VerifSetHook installs a callback invoked immediately before each write/sync
+// on the log file and before each page/header write on the data file.
+func VerifSetHook(f func(event string, arg uint64)) { verifHook = f }
+
+func verifPoint(event string, arg uint64) {
+	if h := verifHook; h != nil {
+		h(event, arg)
+	}
+}
+
+// VerifConsts exposes the compile-time layout constants.
+func VerifConsts() map[string]int {
+	return map[string]int{
+		"pageSize":               pageSize,
+		"internalNodeHeaderSize": internalNodeHeaderSize,
+		"leafNodeHeaderSize":     leafNodeHeaderSize,
+		"offsetElemSize":         offsetElemSize,
+		"nodeCellSize":           nodeCellSize,
+		"maxValueSize":           maxValueSize,
+		"leafNodeCellSize":       leafNodeCellSize,
+		"maxInternalNodeCells":   maxInternalNodeCells,
+		"maxLeafNodeCells":       maxLeafNodeCells,
+	}
+}
+
+// VerifOpenRelation is OpenRelation with the flush timer optional and the
+// cache capacity settable (cacheCap <= 0 keeps the default).
+func VerifOpenRelation(dbName string, autoFlush bool, cacheCap int) (*RelationService, error) {
+	path, exists, err := dbFilePath(dbName)
+	if err != nil {
+		return nil, err
+	}
+	if !exists {
+		return nil, ErrDBNotExist
+	}
+	fs, err := newFileStore(path, autoFlush)
+	if err != nil {
+		return nil, err
+	}
+	if cacheCap > 0 {
+		fs.cache = NewLRU(cacheCap)
+	}
+	if err := fs.open(); err != nil {
+		return nil, err
+	}
+	wal, err := newWal(dbName, true)
+	if err != nil {
+		return nil, err
+	}
+	return &RelationService{fs: fs, wal: wal}, nil
+}
+
+// VerifFlush runs the page flush the timer would run.
+func (rs *RelationService) VerifFlush() error { return rs.fs.flushPages() }
+
+// VerifAbandon closes the file handles without flushing anything (the process
+// "dies"); only valid for services opened with autoFlush=false.
+func (rs *RelationService) VerifAbandon() {
+	if rs.fs.autoFlushCache {
+		rs.fs.ticker.Stop()
+		rs.fs.tickerDone <- true
+	}
+	rs.wal.close()
+	rs.fs.file.Close()
+}
+
+// VerifCell / VerifNode are plain-data images of a tree node.
+type VerifCell struct {
+	Key     uint32
+	Deleted bool
+	Val     []byte
+	Child   uint64
+}
+
+type VerifNode struct {
+	Leaf       bool
+	Off, LSN   uint64
+	HasL, HasR bool
+	LSib, RSib uint64
+	Right      uint64
+	Offsets    []uint16
+	Cells      []VerifCell // physical slice order
+	Dirty      bool
+}
+
+func verifFromNode(n *btreeNode) VerifNode {
+	v := VerifNode{
+		Leaf: n.isLeaf, Off: n.fileOffset, LSN: n.lastLSN, HasL: n.hasLSib, HasR: n.hasRSib,
+		LSib: n.lSibFileOffset, RSib: n.rSibFileOffset, Right: n.rightOffset, Dirty: n.dirty,
+	}
+	v.Offsets = append(v.Offsets, n.offsets...)
+	if n.isLeaf {
+		for _, c := range n.leafCells {
+			if c == nil {
+				v.Cells = append(v.Cells, VerifCell{Key: 0xffffffff})
+				continue
+			}
+			v.Cells = append(v.Cells, VerifCell{Key: c.key, Deleted: c.deleted, Val: append([]byte{}, c.valueBytes...)})
+		}
+	} else {
+		for _, c := range n.internalCells {
+			if c == nil {
+				v.Cells = append(v.Cells, VerifCell{Key: 0xffffffff})
+				continue
+			}
+			v.Cells = append(v.Cells, VerifCell{Key: c.key, Child: c.fileOffset})
+		}
+	}
+	return v
+}
+
+func verifToNode(v VerifNode) *btreeNode {
+	n := &btreeNode{
+		isLeaf: v.Leaf, fileOffset: v.Off, lastLSN: v.LSN, hasLSib: v.HasL, hasRSib: v.HasR,
+		lSibFileOffset: v.LSib, rSibFileOffset: v.RSib, rightOffset: v.Right, dirty: v.Dirty,
+	}
+	n.offsets = append(n.offsets, v.Offsets...)
+	for _, c := range v.Cells {
+		if v.Leaf {
+			n.leafCells = append(n.leafCells, &leafCell{key: c.Key, deleted: c.Deleted, valueSize: uint32(len(c.Val)), valueBytes: c.Val})
+		} else {
+			n.internalCells = append(n.internalCells, &internalCell{key: c.Key, fileOffset: c.Child})
+		}
+	}
+	return n
+}
+
+// String renders the logical content (cells in offset-array order).
+func (v VerifNode) String() string {
+	var sb strings.Builder
+	b := func(x bool) int {
+		if x {
+			return 1
+		}
+		return 0
+	}
+	offs := make([]string, len(v.Offsets))
+	for i, o := range v.Offsets {
+		offs[i] = fmt.Sprint(o)
+	}
+	cells := make([]string, 0, len(v.Offsets))
+	for _, o := range v.Offsets {
+		if int(o) >= len(v.Cells) {
+			cells = append(cells, "BAD")
+			continue
+		}
+		c := v.Cells[o]
+		if v.Leaf {
+			cells = append(cells, fmt.Sprintf("%d:%d:%x", c.Key, b(c.Deleted), c.Val))
+		} else {
+			cells = append(cells, fmt.Sprintf("%d:%d", c.Key, c.Child))
+		}
+	}
+	if v.Leaf {
+		fmt.Fprintf(&sb, "leaf off=%d lsn=%d dirty=%d hasL=%d hasR=%d l=%d r=%d offs=%s cells=%s",
+			v.Off, v.LSN, b(v.Dirty), b(v.HasL), b(v.HasR), v.LSib, v.RSib, strings.Join(offs, ","), strings.Join(cells, ";"))
+	} else {
+		fmt.Fprintf(&sb, "int off=%d lsn=%d dirty=%d right=%d offs=%s cells=%s",
+			v.Off, v.LSN, b(v.Dirty), v.Right, strings.Join(offs, ","), strings.Join(cells, ";"))
+	}
+	return sb.String()
+}
+
+// VerifPageRoundTrip writes the node through fileStore.update into a fresh
+// file at path and reads it back through a cold cache with fileStore.fetch.
+// A panic in the real code is returned as panicMsg.
+func VerifPageRoundTrip(path string, v VerifNode) (out VerifNode, raw []byte, err error, panicMsg string) {
+	defer func() {
+		if r := recover(); r != nil {
+			panicMsg = fmt.Sprint(r)
+		}
+	}()
+	os.Remove(path)
+	fs, err := newFileStore(path, false)
+	if err != nil {
+		return out, nil, err, ""
+	}
+	n := verifToNode(v)
+	if err := fs.update(n); err != nil {
+		fs.file.Close()
+		return out, nil, err, ""
+	}
+	fs.file.Close()
+	fs2, err := newFileStore(path, false)
+	if err != nil {
+		return out, nil, err, ""
+	}
+	defer fs2.file.Close()
+	raw = make([]byte, pageSize+1)
+	k, rerr := fs2.file.ReadAt(raw, int64(v.Off))
+	if rerr != nil && rerr != io.EOF {
+		return out, nil, rerr, ""
+	}
+	raw = raw[:k]
+	got, err := fs2.fetch(v.Off)
+	if err != nil {
+		return out, raw, err, ""
+	}
+	return verifFromNode(got), raw, nil, ""
+}
+
+// VerifEncodeNode / VerifDecodeNode call the codec directly.
+func VerifEncodeNode(v VerifNode) (raw []byte, err error, panicMsg string) {
+	defer func() {
+		if r := recover(); r != nil {
+			panicMsg = fmt.Sprint(r)
+		}
+	}()
+	buf, err := verifToNode(v).encode()
+	if err != nil {
+		return nil, err, ""
+	}
+	return buf.Bytes(), nil, ""
+}
+
+func VerifDecodeNode(raw []byte, leaf bool) (out VerifNode, err error, panicMsg string) {
+	defer func() {
+		if r := recover(); r != nil {
+			panicMsg = fmt.Sprint(r)
+		}
+	}()
+	n := &btreeNode{isLeaf: leaf}
+	if err := n.decode(bytes.NewBuffer(raw)); err != nil {
+		return out, err, ""
+	}
+	return verifFromNode(n), nil, ""
+}
+
+// VerifHeader is the in-memory copy of the file header.
+type VerifHeader struct {
+	LastKey       uint32
+	PageTableRoot uint64
+	NextFree      uint64
+	NextLSN       uint64
+}
+
+func (rs *RelationService) VerifHeader() VerifHeader {
+	f := rs.fs
+	return VerifHeader{f.lastKey, f.pageTableRoot, f.nextFreeOffset, f._nextLSN}
+}
+
+// VerifPages returns every page between the first page and the allocation
+// frontier: the cached object when resident, else the decoded disk image.
+// It does not touch the cache's recency order or contents.
+func (rs *RelationService) VerifPages() (pages []VerifNode, problems []string) {
+	f := rs.fs
+	for off := uint64(pageSize); off < f.nextFreeOffset; off += pageSize {
+		if e, ok := f.cache.cache[off]; ok {
+			pages = append(pages, verifFromNode(e.Value.(*cacheEntry).val))
+			continue
+		}
+		n, prob := verifReadPage(f.file, off)
+		if prob != "" {
+			problems = append(problems, fmt.Sprintf("off=%d %s", off, prob))
+			continue
+		}
+		pages = append(pages, n)
+	}
+	return
+}
+
+func verifReadPage(file *os.File, off uint64) (v VerifNode, problem string) {
+	defer func() {
+		if r := recover(); r != nil {
+			problem = "panic:" + fmt.Sprint(r)
+		}
+	}()
+	buf := make([]byte, pageSize)
+	k, err := file.ReadAt(buf, int64(off))
+	if err != nil && err != io.EOF {
+		return v, "read:" + err.Error()
+	}
+	if k == 0 {
+		return v, "absent"
+	}
+	n := &btreeNode{}
+	switch buf[0] {
+	case InternalNode:
+		n.isLeaf = false
+	case LeafNode:
+		n.isLeaf = true
+	default:
+		return v, "badkind"
+	}
+	if err := n.decode(bytes.NewBuffer(buf)); err != nil {
+		return v, "decode:" + err.Error()
+	}
+	return verifFromNode(n), ""
+}
+
+// VerifDump renders header and pages as canonical text lines.
+func (rs *RelationService) VerifDump() []string {
+	h := rs.VerifHeader()
+	lines := []string{fmt.Sprintf("hdr lastKey=%d ptroot=%d nextFree=%d nextLSN=%d", h.LastKey, h.PageTableRoot, h.NextFree, h.NextLSN)}
+	pages, problems := rs.VerifPages()
+	for _, p := range pages {
+		lines = append(lines, p.String())
+	}
+	for _, p := range problems {
+		lines = append(lines, "problem "+p)
+	}
+	return lines
+}
+
+// VerifCacheKeys lists the resident page offsets, most recently used first.
+func (rs *RelationService) VerifCacheKeys() []uint64 {
+	var keys []uint64
+	for e := rs.fs.cache.list.Front(); e != nil; e = e.Next() {
+		keys = append(keys, e.Value.(*cacheEntry).key.(uint64))
+	}
+	return keys
+}
+
+// VerifDirtyCount is the number of resident dirty pages.
+func (rs *RelationService) VerifDirtyCount() int {
+	k := 0
+	for _, e := range rs.fs.cache.cache {
+		if e.Value.(*cacheEntry).val.isDirty() {
+			k++
+		}
+	}
+	return k
+}
+
+// VerifRootOf returns the catalog's root offset for a table.
+func (rs *RelationService) VerifRootOf(table string) (int64, error) {
+	return rs.getRelationFileOffset(table)
+}
+
+// VerifSchemaOf returns the catalog's column list for a table.
+func (rs *RelationService) VerifSchemaOf(table string) (*Relation, error) {
+	return rs.getRelationSchema(table)
+}
+
+// VerifTables lists the table names in the catalog in catalog order.
+func (rs *RelationService) VerifTables() ([]string, error) {
+	rows, _, err := rs.Fetch(pageTableName)
+	if err != nil {
+		return nil, err
+	}
+	var names []string
+	for _, r := range rows {
+		names = append(names, fmt.Sprint(r.Vals[0]))
+	}
+	return names, nil
+}
+
+// VerifFindCell is the point lookup used by DELETE.
+func (rs *RelationService) VerifFindCell(root uint64, key uint32) (found bool, val []byte, err error) {
+	bt := &BTree{store: rs.fs}
+	bt.rootOffset = root
+	c, err := bt.findCell(key)
+	if err != nil || c == nil {
+		return false, nil, err
+	}
+	return true, c.valueBytes, nil
+}
+
+// VerifScan walks the leaf chain from a root, left-to-right or right-to-left,
+// returning the live keys in visiting order.
+func (rs *RelationService) VerifScan(root uint64, leftward bool) (keys []uint32, err error) {
+	bt := &BTree{store: rs.fs}
+	bt.rootOffset = root
+	f := func(c *leafCell) (ScanAction, error) {
+		keys = append(keys, c.key)
+		return KeepScanning, nil
+	}
+	if leftward {
+		err = bt.scanLeft(f)
+	} else {
+		err = bt.scanRight(f)
+	}
+	return
+}
+
+// VerifWalRec is a decoded log record.
+type VerifWalRec struct {
+	Op     uint8
+	LSN    uint64
+	PageID uint64
+	CellID uint32
+	Val    []byte
+}
+
+func (r VerifWalRec) String() string {
+	return fmt.Sprintf("rec op=%d lsn=%d page=%d cell=%d val=%x", r.Op, r.LSN, r.PageID, r.CellID, r.Val)
+}
+
+// VerifWalRead reads the log of a database with the real reader.
+func VerifWalRead(db string) (recs []VerifWalRec, err error, panicMsg string) {
+	defer func() {
+		if r := recover(); r != nil {
+			panicMsg = fmt.Sprint(r)
+		}
+	}()
+	w, err := newWal(db, true)
+	if err != nil {
+		return nil, err, ""
+	}
+	defer w.close()
+	batch, err := w.read()
+	for _, e := range batch {
+		recs = append(recs, VerifWalRec{uint8(e.WALOp), e.LSN, e.pageID, e.cellID, e.val})
+	}
+	return recs, err, ""
+}
+
+// VerifWalBytes encodes records with the real encoder and framing.
+func VerifWalBytes(recs []VerifWalRec) ([]byte, error) {
+	var out bytes.Buffer
+	w := &wal{reader: verifBuf{&out}, forceSync: true}
+	var batch WALBatch
+	for _, r := range recs {
+		batch = append(batch, &WALEntry{WALOp: WALOp(r.Op), LSN: r.LSN, pageID: r.PageID, cellID: r.CellID, val: r.Val})
+	}
+	err := w.flush(batch)
+	return out.Bytes(), err
+}
+
+// VerifWalParse runs the real log reader over raw bytes.
+func VerifWalParse(raw []byte) (recs []VerifWalRec, err error, panicMsg string) {
+	defer func() {
+		if r := recover(); r != nil {
+			panicMsg = fmt.Sprint(r)
+		}
+	}()
+	w := &wal{reader: verifBuf{bytes.NewBuffer(raw)}, forceSync: true}
+	batch, err := w.read()
+	for _, e := range batch {
+		recs = append(recs, VerifWalRec{uint8(e.WALOp), e.LSN, e.pageID, e.cellID, e.val})
+	}
+	return recs, err, ""
+}
+
+type verifBuf struct{ *bytes.Buffer }
+
+func (verifBuf) Close() error { return nil }
+func (verifBuf) Sync() error  { return nil }
+
+// VerifBatch converts a WALBatch for inspection.
+func VerifBatch(b WALBatch) []VerifWalRec {
+	var recs []VerifWalRec
+	for _, e := range b {
+		recs = append(recs, VerifWalRec{uint8(e.WALOp), e.LSN, e.pageID, e.cellID, e.val})
+	}
+	return recs
+}
+
+// VerifLRU drives the real LRUCache with nodes identified by a number.
+type VerifLRU struct{ c *LRUCache }
+
+func VerifNewLRU(cap int) *VerifLRU { return &VerifLRU{NewLRU(cap)} }
+
+// Set stores a fresh node (identified by id, with the given dirty flag).
+func (v *VerifLRU) Set(key, id uint64, dirty bool) bool {
+	return v.c.set(key, &btreeNode{fileOffset: id, dirty: dirty})
+}
+
+func (v *VerifLRU) Get(key uint64) (id uint64, dirty, ok bool) {
+	n, ok := v.c.get(key)
+	if !ok {
+		return 0, false, false
+	}
+	return n.fileOffset, n.dirty, true
+}
+
+// SetDirty flips the dirty flag of the node resident under key, without
+// touching recency (as markDirty/markClean do on a page the caller holds).
+func (v *VerifLRU) SetDirty(key uint64, dirty bool) bool {
+	e, ok := v.c.cache[key]
+	if !ok {
+		return false
+	}
+	e.Value.(*cacheEntry).val.dirty = dirty
+	return true
+}
+
+// Items lists (key, id, dirty) most recently used first, plus the index size.
+func (v *VerifLRU) Items() (items [][3]uint64, mapLen int) {
+	for e := v.c.list.Front(); e != nil; e = e.Next() {
+		ce := e.Value.(*cacheEntry)
+		d := uint64(0)
+		if ce.val.dirty {
+			d = 1
+		}
+		items = append(items, [3]uint64{ce.key.(uint64), ce.val.fileOffset, d})
+	}
+	return items, len(v.c.cache)
+}
+
+// VerifSortedMapKeys is a helper for canonical output.
+func VerifSortedMapKeys(m map[string]interface{}) []string {
+	keys := make([]string, 0, len(m))
+	for k := range m {
+		keys = append(keys, k)
+	}
+	sort.Strings(keys)
+	return keys
+}
